@@ -41,7 +41,8 @@ LUNITS = ["int", "A", "nm", "Bohr", "a.u.", "m", "SI"]
 
 ACCESSORS = ["convert", "convert_array", "manager", "manager_nm", "hamiltonian", "freqaxis", "molecule_ctor",
              "molecule_set", "mode_ctor", "mode_set", "coupling", "coupling_matrix", "corfce_reorg", "specdens_reorg",
-             "agg_hamiltonian", "rwa_skeleton", "freqaxis_to_timeaxis", "length"]
+             "agg_hamiltonian", "rwa_skeleton", "freqaxis_to_timeaxis", "length", "transition_width",
+             "diabatic_coupling", "adiabatic_coupling", "cutoff_coupling", "state_energy", "abs_rwa", "cfm_reorg"]
 
 CALLS = ["build1", "build2", "build_modes", "rebuild", "diagonalize", "build_raises", "mol_hamiltonian", "mol_dipole",
          "mol_sbi", "rt_stR", "rt_stR_td", "rt_stF", "rt_cRF", "rt_unknown_raises", "redfield_rates", "foerster_rates",
@@ -236,6 +237,80 @@ def _check_matrix(case, ctx):
             cmp("stored-value", [ta.start, ta.step, ta.frequency_start], [ref.start, ref.step, ref.frequency_start])
             with qr.energy_units("int"):
                 cmp("stored-value", back.data, fa.data)
+        elif acc == "transition_width":
+            mol = qr.Molecule([0.0, 1.0])
+            with qr.energy_units(u1):
+                mol.set_transition_width((0, 1), abs(v) + 1.0)
+            cmp("stored-value", mol.widths[0, 1], orc.to_internal(abs(v) + 1.0, u1))
+            cmp("stored-value", mol.widths[1, 0], orc.to_internal(abs(v) + 1.0, u1))
+        elif acc == "diabatic_coupling":
+            mol = qr.Molecule([0.0, 1.0, 1.2])
+            mol.add_Mode(qr.Mode(0.01))
+            with qr.energy_units(u1):
+                mol.set_diabatic_coupling((1, 2), [v, [1]])
+            cmp("stored-value", mol.diabatic_matrix[1][2][0][0], orc.to_internal(v, u1))
+            with qr.energy_units(u2):
+                got = mol.get_diabatic_coupling((2, 1))
+            cmp("conversion", got[0][0], expect(v))
+        elif acc == "adiabatic_coupling":
+            mol = qr.Molecule([0.0, 1.0, 1.2])
+            with qr.energy_units(u1):
+                mol.set_adiabatic_coupling(1, 2, v)
+            cmp("stored-value", mol.get_adiabatic_coupling(1, 2), orc.to_internal(v, u1))
+        elif acc == "cutoff_coupling":
+            # couplings 3c (suppressed by c) and c/2 (removed), c given in u1
+            c = abs(v) + 1.0
+            ci = orc.to_internal(c, u1)
+            M = numpy.array([[0.0, 0.0, 0.0, 0.0], [0.0, 1.0, 3 * ci, 0.5 * ci], [0.0, 3 * ci, 1.1, -3 * ci],
+                             [0.0, 0.5 * ci, -3 * ci, 1.2]])
+            with qr.energy_units("int"):
+                H = qr.Hamiltonian(data=M.copy())
+            with qr.energy_units(u1):
+                H.subtract_cutoff_coupling(c)
+            cmp("stored-value", [H._data[1, 2], H._data[1, 3], H._data[2, 3], H._data[3, 2]], [2 * ci, 0.0, -2 * ci, -2 * ci])
+            with qr.energy_units(u2):
+                H.recover_cutoff_coupling()
+            cmp("stored-value", H._data, M)
+        elif acc == "state_energy":
+            with qr.energy_units(u1):
+                m1, m2 = qr.Molecule([0.0, v]), qr.Molecule([0.0, v + 7.0])
+                agg = qr.Aggregate(molecules=[m1, m2])
+                agg.set_resonance_coupling(0, 1, float(case["v2"]))
+            agg.build()
+            agg.diagonalize()
+            # all three states are sorted by energy (strong coupling can push an exciton below the ground state)
+            ev = numpy.sort(numpy.concatenate([[0.0], numpy.linalg.eigvalsh(
+                numpy.array([[v, float(case["v2"])], [float(case["v2"]), v + 7.0]]))]))
+            with qr.energy_units(u2):
+                got = [agg.get_state_energy(0), agg.get_state_energy(1), agg.get_state_energy(2)]
+            cmp("conversion", got, expect(ev))
+        elif acc == "abs_rwa":
+            ta = qr.TimeAxis(0.0, 50, 2.0)
+            with qr.energy_units("1/cm"):
+                mol = qr.Molecule([0.0, 12000.0])
+                mol.set_transition_environment((0, 1), qr.CorrelationFunction(ta, dict(
+                    ftype="OverdampedBrownian", reorg=30.0, cortime=50.0, T=300.0, matsubara=5)))
+            calc = qr.AbsSpectrumCalculator(ta, system=mol)
+            w = abs(v) + 1.0
+            with qr.energy_units(u1):
+                calc.bootstrap(rwa=w)
+            cmp("stored-value", calc.rwa, orc.to_internal(w, u1))
+        elif acc == "cfm_reorg":
+            ta = qr.TimeAxis(0.0, 60, 2.0)
+            lam = float(1 + case["v"] % 300)
+            with qr.energy_units(u1):
+                cf = qr.CorrelationFunction(ta, dict(ftype="OverdampedBrownian", reorg=lam, cortime=50.0, T=300.0,
+                                                     matsubara=5))
+            with qr.energy_units("1/cm"):
+                m1, m2 = qr.Molecule([0.0, 12000.0]), qr.Molecule([0.0, 12100.0])
+            m1.set_transition_environment((0, 1), cf)
+            m2.set_transition_environment((0, 1), cf)
+            agg = qr.Aggregate(molecules=[m1, m2])
+            agg.build()
+            cfm = agg.get_SystemBathInteraction().CC
+            with qr.energy_units(u2):
+                got = cfm.get_reorganization_energy(0, 0)
+            cmp("conversion", got, orc.convert(lam, u1, u2))
         elif acc == "length":
             l1, l2 = case["l1"], case["l2"]
             with qr.length_units(l1):
